@@ -103,6 +103,7 @@ type zzState struct {
 	fwdFail    bool
 	autoconf   bool
 	autoCalls  int
+	fwdFixed   *bool // when set: the answer to every forwarding query
 }
 
 func (s *zzState) IPv6Autoconf(iface string) (bool, error) { s.autoCalls++; return s.autoconf, nil }
@@ -111,7 +112,12 @@ func (s *zzState) IPv6Forwarding(iface string) (bool, error) {
 	if s.fwdFail {
 		return false, zzErrEnv
 	}
-	v := zzNondetBool("forwarding")
+	var v bool
+	if s.fwdFixed != nil {
+		v = *s.fwdFixed
+	} else {
+		v = zzNondetBool("forwarding")
+	}
 	s.fwdValues = append(s.fwdValues, v)
 	return v, nil
 }
@@ -147,6 +153,8 @@ type zzConn struct {
 	release     chan struct{}
 	inFlight    int
 	events      []string // order of visible events: "write:<n>", "run-returned"
+
+	onWrite func(n int) // called with the number of writes made before this one
 }
 
 type zzRead struct {
@@ -202,6 +210,9 @@ func (c *zzConn) SetReadDeadline(t time.Time) error {
 
 func (c *zzConn) WriteTo(m ndp.Message, cm *ipv6.ControlMessage, dst netip.Addr) error {
 	ra, _ := m.(*ndp.RouterAdvertisement)
+	if c.onWrite != nil {
+		c.onWrite(len(c.writes))
+	}
 	if c.gateUnicast && !dst.IsMulticast() {
 		if c.release == nil {
 			c.release = make(chan struct{})
